@@ -358,10 +358,11 @@ def window_cases(draw):
     # decisive choices first
     target = draw(st.sampled_from(['series', 'frame0', 'frame1', 'series_array', 'frame0_array']))
     kind, other = draw(st.sampled_from(['int', 'str', 'date', 'ih'])), draw(st.sampled_from(['str', 'date', 'str', 'ih']))
+    wfunc, wvalid = draw(st.sampled_from([None, 'double', None])), draw(st.sampled_from([None, None, 'first_even']))
     n = draw(st.sampled_from([5, 4, 6, 3, 2, 1, 0, 7, 8]))
     return {'n': n, 'size': draw(st.integers(1, 4)), 'step': draw(st.integers(0, 3)), 'sized': draw(st.booleans()),
             'label_shift': draw(st.integers(-3, 2)), 'start_shift': draw(st.integers(-2, 2)), 'inc': draw(st.sampled_from([0, 1, -1, 2, -2])),
-            'target': target, 'kind': kind, 'other': other}
+            'target': target, 'kind': kind, 'other': other, 'wfunc': wfunc, 'wvalid': wvalid}
 
 
 def _window_axis_index(kind, n):
@@ -419,6 +420,18 @@ def check_windows(case):
     kw = dict(size=case['size'], step=case['step'], window_sized=case['sized'], label_shift=case['label_shift'],
               start_shift=case['start_shift'], size_increment=case['inc'])
     want = ref_windows(n, case['size'], case['step'], case['sized'], case['label_shift'], case['start_shift'], case['inc'])
+    mult = 1
+    if case.get('wvalid'):
+        # only windows accepted by the predicate are yielded (here: the first cell of the window is even; empty windows pass)
+        def _first_even(w):
+            a = np.asarray(w.values if hasattr(w, 'values') else w).ravel()
+            return True if a.size == 0 else int(a[0]) % 2 == 0
+        kw['window_valid'] = _first_even
+        want = [(wl, ww) for wl, ww in want if not ww or int(vals[ww[0]]) % 2 == 0]
+    if case.get('wfunc'):
+        # every yielded window is passed through the function first
+        kw['window_func'] = lambda w: w * 2
+        mult = 2
     t = case['target']
     if t.startswith('series'):
         s = sf.Series(vals, index=ix)
@@ -447,7 +460,7 @@ def check_windows(case):
             got, gl2 = arr_list(gw[:, 0]), None
         else:
             got, gl2 = arr_list(gw.values[0]), obs.labels_of(gw.columns)
-        if got != [int(vals[p]) for p in ww]:
+        if got != [int(vals[p]) * mult for p in ww]:
             raise Failure('window', 'windows %s at label %r: values %s expected positions %s' % (kw, gl, got, ww))
         if gl2 is not None and gl2 != [canon(labels[p]) for p in ww]:
             raise Failure('window-labels', 'windows %s at label %r: window labels %s' % (kw, gl, gl2))
@@ -464,14 +477,14 @@ def check_windows(case):
     if len(vr) != len(r) or any(obs.snap(a) != obs.snap(b) for a, (_, b) in zip(vr, r)):
         raise Failure('values-form', 'windows %s: the values-only form yields %d windows %s, the items form %d windows %s' % (
             kw, len(vr), short([obs.snap(a)[-1] for a in vr], 200), len(r), short([obs.snap(b)[-1] for _, b in r], 200)))
-    if want and len({wl for wl, _ in want}) == len(want):  # (repeated window labels cannot label a result: rightly rejected)
+    if len({wl for wl, _ in want}) == len(want):  # (repeated window labels cannot label a result: rightly rejected; no window at all gives an empty result)
         ar = lib(lambda: node().apply(lambda w: int(np.asarray(w.values if hasattr(w, 'values') else w).size)))
         if isinstance(ar, Raised):
             raise Failure('raised:%s' % ar.cls, 'iter_window(%s).apply raised %r' % (kw, ar.exc), ar.where)
         al = obs.labels_of(ar.index)
         if al != [canon(labels[wl]) for wl, _ in want]:
             raise Failure('apply-labels', 'windows %s: apply() labels %s expected %s' % (kw, short(al), short([labels[wl] for wl, _ in want])))
-    return {'nt': len(want) >= 2, 'cls': ['w:' + t, 'wlabels:' + case['kind'], 'wother:' + case.get('other', 'str'), 'sized' if case['sized'] else 'unsized', 'step:%d' % case['step'], 'inc:%d' % case['inc']]}
+    return {'nt': len(want) >= 2, 'cls': ['w:' + t, 'wlabels:' + case['kind'], 'wother:' + case.get('other', 'str'), 'wfunc:%s' % case.get('wfunc'), 'wvalid:%s' % case.get('wvalid'), 'sized' if case['sized'] else 'unsized', 'step:%d' % case['step'], 'inc:%d' % case['inc']]}
 
 
 def tag(case, f):
